@@ -293,11 +293,16 @@ def l4(e: Engine, rep: Report):
         if n.kind != 'call':
             return False
         f = n.ast.func
+        fr = n.frame
         if g is not None and isinstance(f, ast.Name):
-            f, _ = common.origin(g, f, n.frame)
-        return isinstance(f, ast.Attribute) and f.attr == name and \
-            isinstance(f.value, ast.Call) and \
-            ast.unparse(f.value.func) == 'super'
+            f, fr = common.origin(g, f, n.frame)
+        if not (isinstance(f, ast.Attribute) and f.attr == name):
+            return False
+        v = f.value
+        if g is not None and isinstance(v, ast.Name):
+            # parent = super(...); parent.append
+            v, _ = common.origin(g, v, fr)
+        return isinstance(v, ast.Call) and ast.unparse(v.func) == 'super'
     for name, (op, cnt, order) in DEQUE_SPEC.items():
         where = DEQUE + '.' + name
         if name not in c.methods:
